@@ -429,11 +429,22 @@ impl Network {
         let max_formation_count = vehicle_types
             .iter()
             .map(|vt| {
-                vehicle_types
-                    .get(vt)
-                    .unwrap()
-                    .maximal_formation_count()
-                    .unwrap_or(1)
+                let vehicle_type = vehicle_types.get(vt).unwrap();
+                // without a limit, take the most vehicles any trip of this type requires
+                vehicle_type.maximal_formation_count().unwrap_or_else(|| {
+                    service_trips
+                        .get(&vt)
+                        .into_iter()
+                        .flatten()
+                        .map(|trip| {
+                            trip.passengers()
+                                .div_ceil(vehicle_type.capacity())
+                                .max(trip.seated().div_ceil(vehicle_type.seats()))
+                        })
+                        .max()
+                        .unwrap_or(1)
+                        .max(1)
+                })
             })
             .max()
             .unwrap_or(1);
